@@ -152,10 +152,25 @@ def deriveRange (convDistOf : Peer → Nat) (peersInNonFullBuckets numFullBucket
 
 /-! ## The storage challenge's closeness decisions (ant-node/src/node.rs) -/
 
-/-- `respond_x_closest_record_proof` for `difficulty ≠ 1`: the held chunk addresses (id, distance to the key) sorted by
-distance to the key, the first `min(difficulty, CLOSE_GROUP_SIZE)` answered for -/
+/-- the `difficulty ≠ 1` branch of `respond_x_closest_record_proof`: the held chunk addresses (id, distance to the key)
+sorted by distance to the key, the first `min(difficulty, CLOSE_GROUP_SIZE)` answered for -/
 def respondClosest (held : List Peer) (difficulty : Nat) : List Peer :=
   (sortByDist held).take (min difficulty challengeWorkloadCap)
+
+/-- what `respond_x_closest_record_proof` answers for -/
+inductive ProofAnswer where
+  /-- `difficulty == 1` (a client checking one published chunk): one entry, for the key itself — a proof when the record
+  is held locally (`found`), `ChunkDoesNotExist` otherwise; nothing is sorted -/
+  | single (found : Bool)
+  /-- otherwise: proofs for these held chunks, in this order -/
+  | nearest (l : List Peer)
+  deriving DecidableEq, Repr
+
+/-- `respond_x_closest_record_proof(key, nonce, difficulty, chunk_only = true)`: `keyId` is the id of the key among the
+chunk ids of the universe (`none`: the key is no chunk of the universe, so it is not held) -/
+def respondProof (held : List Peer) (keyId : Option Nat) (difficulty : Nat) : ProofAnswer :=
+  if difficulty = 1 then .single (held.any (fun p => some p.1 == keyId))
+  else .nearest (respondClosest held difficulty)
 
 /-- `storage_challenge`, the challenger's choice of what is checked: with at least 50 held chunks, sorted by distance to
 the node itself (`bySelf`), the target is entry `index < n / 2` (the implementation's random choice, carried as a
